@@ -29,6 +29,7 @@ type c05mCase struct {
 }
 
 func c05mRun(t *testing.T, c c05mCase) (kind, what string) {
+	defer ev.Watch(fmt.Sprintf("whole dump command %+v", c), 150*time.Second, c)()
 	prefix := filepath.Join(os.Getenv("VERIF_SCRATCH"), fmt.Sprintf("c05m-%d.rdb", os.Getpid()))
 	var addrs []string
 	rdbs := map[string][]byte{}
